@@ -322,11 +322,17 @@ def translate(sc, res, trace):
                 last = lines[-1] if lines else None
                 extra = ""
                 if last is not None and last[2] == "sdret" and last[3] == s:
-                    extra = "~V=" + ("n" if last[4] is None else "t" if last[4] else "f")
+                    val = "n" if last[4] is None else "t" if last[4] else "f"
                     relay[s] = "done"
+                    if val == "n":
+                        B.append("HS_%d~H=%s~V=n" % (ids[s], enc(H)))
+                    else:
+                        # an empty scheduler: nothing to wait for, co_shutdown() returns True in the same step
+                        B.append("HS_%d~H=%s" % (ids[s], enc(H)))
+                        B.append("SW_%d_0~V=%s" % (ids[s], val))
                 else:
                     relay[s] = "wait"
-                B.append("HS_%d~H=%s%s" % (ids[s], enc(H), extra))
+                    B.append("HS_%d~H=%s" % (ids[s], enc(H)))
         elif kind == "wenter" and e[4] in ("sd", "sdtidy"):
             entered[(who, e[6])] = list(e[5])
         elif kind == "wret" and e[4] in ("sd", "sdtidy"):
